@@ -217,8 +217,6 @@ def run_property(prop, tier='quick', seed=0, out=sys.stdout):
         else:
             still.append(o)
     undecided = still
-    for o in undecided:
-        print(f"UNDECIDED property={prop} obligation={o['name']} ({'; '.join(str(x) for x in o['result']['log'])})", file=out)
     # a function that left the verifier's subset (or lost its contract anchor): bounded fallback by its native replay builder,
     # enumerating the builder's own small scope on the real code. A failure found there is a real failing input.
     fallback_lines = []
@@ -238,6 +236,25 @@ def run_property(prop, tier='quick', seed=0, out=sys.stdout):
             still_fn.append(u)
     undecided_fn = still_fn
     new_violations = new_violations + fallback_lines
+    # anything still undecided: the bounded simulation monitor with this property's oracles (real code, small scope)
+    bounded_note = None
+    if (undecided or undecided_fn) and os.environ.get('PYVC_NO_SIMMON') != '1':
+        path = os.path.join(rdir, f'bounded_simulations_{prop}.json')
+        what = [o['name'] for o in undecided][:20] + undecided_fn[:10]
+        json.dump(dict(property=prop, obligation=f"bounded-simulations property={prop}", function='__simmon__', source=None,
+                       undecided_obligations=what,
+                       counterexamples=[dict(path=0, where=None, solver='bounded-fallback', model={}, solver_log=[])], replayed=False),
+                  open(path, 'w'), indent=1)
+        ok, note = try_replay(path)
+        bounded_note = dict(ran=True, violation_found=ok, replay=path)
+        if ok:
+            line = (f"VIOLATION property={prop} replay={path} obligation=bounded-simulations ({len(what)} obligations undecided by the "
+                    f"solvers, e.g. {what[0][:120]}; a failing run of the real code was found by the bounded simulation monitor)")
+            print(line, file=out)
+            new_violations = new_violations + [(f"bounded-simulations:{prop}", [])]
+            undecided, undecided_fn = [], []
+    for o in undecided:
+        print(f"UNDECIDED property={prop} obligation={o['name']} ({'; '.join(str(x) for x in o['result']['log'])})", file=out)
     for u in undecided_fn:
         print(f"UNDECIDED property={prop} {u}", file=out)
     for e in errors:
@@ -277,6 +294,7 @@ def run_property(prop, tier='quick', seed=0, out=sys.stdout):
             repo_head=Source().head(),
             not_covered=PROPERTY_NOTES.get(prop, {}).get('not_covered', []),
             bounded=PROPERTY_NOTES.get(prop, {}).get('bounded', []),
+            bounded_fallback=bounded_note,
         ),
         assumptions=TRUSTED_BASE + PROPERTY_NOTES.get(prop, {}).get('assumptions', []),
         wall_s=round(time.time() - t_start, 2),
@@ -334,7 +352,7 @@ def try_replay(path):
     if not os.path.exists(rp):
         return False, 'no replayer'
     try:
-        r = subprocess.run(['/venv/bin/python', rp, path], capture_output=True, text=True, timeout=120,
+        r = subprocess.run(['/venv/bin/python', rp, path], capture_output=True, text=True, timeout=600,
                            env=dict(os.environ, PYTHONPATH=os.environ.get('TOPSIM_REPO', '/repo'), TQDM_DISABLE='1'))
         return r.returncode == 10, r.stdout[-500:]
     except Exception as e:
